@@ -205,7 +205,14 @@ fn insert_cval(world: &mut World, e: Entity, v: &CVal, joints: &[Entity]) {
         }
         Ty::Skinned => {
             drop(em);
-            let poses: Vec<Mat4> = (0..joints.len())
+            // the number of matrices is independent of the number of joints (more, fewer, equal)
+            let np = match (n / 100) % 4 {
+                0 => joints.len(),
+                1 => joints.len() + 2,
+                2 => joints.len().saturating_sub(1),
+                _ => joints.len() + 5,
+            };
+            let poses: Vec<Mat4> = (0..np)
                 .map(|i| Mat4::from_cols_array(&std::array::from_fn(|k| (n as f32) + (i * 16 + k) as f32)))
                 .collect();
             let handle = world.resource_mut::<Assets<SkinnedMeshInverseBindposes>>().add(SkinnedMeshInverseBindposes::from(poses));
@@ -587,7 +594,8 @@ impl Session {
         let w = self.peers[peer as usize].app.world_mut();
         let Some(handle) = w.get_entity(se).and_then(|x| x.get::<SkinnedMesh>().map(|s| s.inverse_bindposes.clone())) else { return false };
         let n = w.resource::<Assets<SkinnedMeshInverseBindposes>>().get(&handle).map(|p| p.len()).unwrap_or(0);
-        if w.get_entity(e).is_none() || joints.len() != n {
+        let _ = n;
+        if w.get_entity(e).is_none() {
             return false;
         }
         w.entity_mut(e).insert(SkinnedMesh { inverse_bindposes: handle, joints });
@@ -611,7 +619,7 @@ impl Session {
             Ty::A => comp!(CompA),
             Ty::B => comp!(CompB),
             Ty::E => comp!(CompE),
-            Ty::V => comp!(CompV),
+            Ty::V => er.get::<CompV>().and_then(|c| compv_repr(c, &registry)),
             Ty::U => comp!(CompU),
             Ty::Transform => comp!(Transform),
             Ty::Name => comp!(Name),
@@ -929,7 +937,9 @@ impl Session {
             comp!(CompA, Ty::A);
             comp!(CompB, Ty::B);
             comp!(CompE, Ty::E);
-            comp!(CompV, Ty::V);
+            if let Some(c) = er.get::<CompV>() {
+                comps.insert(Ty::V.name().to_string(), compv_repr(c, &registry).unwrap_or("ERR".into()));
+            }
             comp!(CompU, Ty::U);
             comp!(Transform, Ty::Transform);
             comp!(Name, Ty::Name);
@@ -1040,11 +1050,19 @@ impl Session {
         let client_connected = world.get_resource::<RenetClient>().map(|c| c.is_connected()).unwrap_or(false);
         let client_disconnected = world.get_resource::<RenetClient>().map(|c| c.is_disconnected()).unwrap_or(true);
         let server_clients = world.get_resource::<RenetServer>().map(|s| s.clients_id().len()).unwrap_or(0);
+        let mut disc_reason = world.get_resource::<RenetClient>().and_then(|c| c.disconnect_reason()).map(|r| format!("{:?}", r));
+        if let Some(evs) = world.get_resource::<Events<bevy_renet::renet::ServerEvent>>() {
+            for e in evs.iter_current_update_events() {
+                if let bevy_renet::renet::ServerEvent::ClientDisconnected { reason, .. } = e {
+                    disc_reason = Some(format!("server: {:?}", reason));
+                }
+            }
+        }
         let sync_finished = world.resource::<SyncFinishedCount>().0;
         json!({"ents": ents, "marks": marks, "tracker": tracker, "xfer": xfer, "assets": assets, "served": served,
                "server_state": server_state, "client_state": client_state,
                "server_transport": has_server_t, "client_transport": has_client_t,
-               "client_connected": client_connected, "client_disconnected": client_disconnected,
+               "client_connected": client_connected, "client_disconnected": client_disconnected, "disc_reason": disc_reason,
                "server_clients": server_clients, "sync_finished": sync_finished})
     }
 
@@ -1059,6 +1077,38 @@ impl Session {
             writeln!(w, "{}", v).unwrap();
         }
     }
+}
+
+thread_local! {
+    static BIG_V: std::cell::RefCell<HashMap<(usize, u64), String>> = std::cell::RefCell::new(HashMap::new());
+}
+
+/// encoding of a `CompV` as the state dump prints it; large values are encoded and digested once per distinct content
+fn compv_repr(c: &CompV, registry: &bevy::reflect::TypeRegistry) -> Option<String> {
+    if c.items.len() <= 4096 {
+        return verif::reflect_to_bin(c.as_reflect(), registry).ok().map(|b| hexs(&b));
+    }
+    let key = (c.items.len(), fingerprint(&c.items));
+    if let Some(s) = BIG_V.with(|m| m.borrow().get(&key).cloned()) {
+        return Some(s);
+    }
+    let s = verif::reflect_to_bin(c.as_reflect(), registry).ok().map(|b| hexs(&b));
+    if let Some(s) = &s {
+        BIG_V.with(|m| m.borrow_mut().insert(key, s.clone()));
+    }
+    s
+}
+
+fn fingerprint(b: &[u8]) -> u64 {
+    let mut h: u64 = 0xcbf29ce484222325;
+    let mut chunks = b.chunks_exact(8);
+    for c in &mut chunks {
+        h = (h ^ u64::from_le_bytes(c.try_into().unwrap())).wrapping_mul(0x100000001b3).rotate_left(29);
+    }
+    for x in chunks.remainder() {
+        h = (h ^ *x as u64).wrapping_mul(0x100000001b3);
+    }
+    h
 }
 
 fn sha(b: &[u8]) -> String {
